@@ -126,7 +126,8 @@ def ob_inv_entry(ctx):
     try: r = ob_inv_entry_special(ctx)
     except (Unsupported, AttributeError, TypeError, KeyError, z3.Z3Exception) as e: r = inconc('%s: %s' % (type(e).__name__, e), structural=True)
     if r.get('structural'):
-        g = inv_generic(ctx); g['detail'] = '[loop shape not the textbook one (%s); structure-independent check] %s' % (r['detail'][:120], g.get('detail', '')); return g
+        # the structure-independent check (run once, under inv/step) contains its own entry obligation
+        return ok('loop shape not the textbook one (%s): the entry obligation is part of the structure-independent check reported under inv/step' % r['detail'][:120], sample=dict(part='entry', deferred_to='inv/step'))
     return r
 def ob_inv_step(ctx):
     try: r = ob_inv_step_special(ctx)
@@ -295,7 +296,7 @@ def inv_generic(ctx):
         return Pr(None, A.ybv - Q * B.ybv, xf, '(%s - q·%s)' % (A.nm, B.nm))
     P0 = Pr(H[x0], H[y0], nm='P0'); P1 = Pr(H[x1], H[y1], nm='P1')
     nq = 0; nback = nexit = 0
-    tm = 120 if ctx.thorough else 45
+    tm = 180 if ctx.thorough else 90
     NIA = [dict(limb_min=0, abstract=False, logic=None, share=0.5), dict(limb_min=0, abstract=False, logic='QF_NIA', share=0.5)]
     def holds(g, base):
         nonlocal nq
@@ -318,10 +319,10 @@ def inv_generic(ctx):
                 for k, Nk in enumerate(N):
                     if k in just: continue
                     for (A, B) in ((state[0], state[1]), (state[1], state[0])):
-                        if holds(lambda tr, A=A, Nk=Nk: z3.And(tr.val(Nk.ybv) == tr.val(A.ybv), (tr.val(Nk.xbv) - A.xf(tr)) % P == 0), base):
+                        if holds(lambda tr, A=A, Nk=Nk: tr.val(Nk.ybv) == tr.val(A.ybv), base) and holds(lambda tr, A=A, Nk=Nk: (tr.val(Nk.xbv) - A.xf(tr)) % P == 0, base):
                             just[k] = 'same as %s' % A.nm; Nk.nm = A.nm; state = [Nk if s_ is A else s_ for s_ in state]; progress = True; break
                         D = derive(A, B)
-                        if holds(lambda tr, B=B: tr.val(B.ybv) != 0, base) and holds(lambda tr, D=D, Nk=Nk: z3.And(tr.val(Nk.ybv) == tr.val(D.ybv), (tr.val(Nk.xbv) - D.xf(tr)) % P == 0), base):
+                        if holds(lambda tr, B=B: tr.val(B.ybv) != 0, base) and holds(lambda tr, D=D, Nk=Nk: tr.val(Nk.ybv) == tr.val(D.ybv), base) and holds(lambda tr, D=D, Nk=Nk: (tr.val(Nk.xbv) - D.xf(tr)) % P == 0, base):
                             just[k] = D.nm; Nk.nm = 'N%d' % k; state = [B, Nk]; progress = True; steps += 1; break
                     if progress: break
             if len(just) < 2 or not (set(id(s_) for s_ in state) == set(id(n_) for n_ in N)) or steps == 0:
@@ -674,7 +675,7 @@ def confirm_native(ctx, which, text, model):
 def obligations(ctx):
     from . import C03
     import os
-    obs = [Ob('inv/refusal', ob_inv_refusal), Ob('inv/entry', ob_inv_entry), Ob('inv/step', ob_inv_step), Ob('inv+div/wrappers', ob_inv_wrapper), Ob('exp', ob_exp, timeout=2400)]
+    obs = [Ob('inv/refusal', ob_inv_refusal), Ob('inv/entry', ob_inv_entry), Ob('inv/step', ob_inv_step, timeout=1500), Ob('inv+div/wrappers', ob_inv_wrapper), Ob('exp', ob_exp, timeout=2400)]
     # thorough tier: the structure-independent check runs in addition to the specialised one (two independent arguments for the same loop)
     if ctx.thorough or os.environ.get('GV_C10_GENERIC') == '1': obs.append(Ob('inv/generic', inv_generic, timeout=1500))
     return obs + C03.contract_obs(ctx)
